@@ -76,9 +76,11 @@ package vgirpc
 //@   property C37
 //@   at call DispatchHook.OnDispatchEnd assert [endargs] arg1 == ctx && arg2 == hookToken && arg3 == info && arg4 == stats && arg5 == *handlerErr
 //
-// Pipe. serveOne starts the hook in a recovering literal and ends it in another; the end literal
-// is called exactly when the start returned normally (hookActive), with the start's token, on
-// every path that reaches the end of serveOne after the start.
+// Pipe. serveOne starts the hook in a recovering literal and ends it in a deferred one (repaired
+// defect: the end was sequential code after the dispatch, so a panic that escaped the handlers'
+// own recovers skipped it). The deferred literal is registered before the dispatch and runs once
+// on every path that leaves serveOne after the defer statement; it calls OnDispatchEnd exactly
+// when the start returned normally (hookActive), with the start's token.
 //
 //@ func (*Server).serveOne$2
 //@   property C37
@@ -89,14 +91,25 @@ package vgirpc
 //
 //@ func (*Server).serveOne$3
 //@   property C37
+//@   pathflag called
+//@   at call DispatchHook.OnDispatchEnd assert [onlyactive] hookActive && !called
 //@   at call DispatchHook.OnDispatchEnd assert [endargs] arg1 == ctx && arg2 == hookToken && arg3 == dispatchInfo && arg4 == stats && arg5 == handlerErr
+//@   at call DispatchHook.OnDispatchEnd mark called
+//@   ensures [local_endcalled] hookActive ==> called
 //
 //@ func (*Server).serveOne
 //@   property C37
 //@   pathflag ended
-//@   at call (*Server).serveOne$3 assert [endonce] hookActive && !ended
+//@   pathflag dispatched
+//@   pathflag enddeferred
+//@   at call "defer:(*Server).serveOne$3" mark enddeferred
+//@   at call (*Server).serveUnary assert [endregisteredfirst] enddeferred
+//@   at call (*Server).serveStream assert [endregisteredfirst] enddeferred
+//@   at call (*Server).serveUnary mark dispatched
+//@   at call (*Server).serveStream mark dispatched
+//@   at call (*Server).serveOne$3 assert [endonce] !ended
 //@   at call (*Server).serveOne$3 mark ended
-//@   ensures [local_endruns] hookActive ==> ended
+//@   ensures [local_endruns] dispatched ==> ended
 //
 // Each HTTP dispatcher runs the cleanup exactly once on every path that leaves it after the
 // hook was started (it is deferred right after the start; no path calls it a second time).
@@ -105,6 +118,9 @@ package vgirpc
 //@   property C37
 //@   pathflag started
 //@   pathflag cleaned
+//@   pathflag cleanupdeferred
+//@   at call "defer:local:hookCleanup" assert [deferredrightafterstart] started && !cleanupdeferred
+//@   at call "defer:local:hookCleanup" mark cleanupdeferred
 //@   at call (*HttpServer).startDispatchHook assert [startonce] !started
 //@   at call (*HttpServer).startDispatchHook mark started
 //@   at call "local:hookCleanup" assert [cleanuponce] started && !cleaned
@@ -114,6 +130,9 @@ package vgirpc
 //@   property C37
 //@   pathflag started
 //@   pathflag cleaned
+//@   pathflag cleanupdeferred
+//@   at call "defer:local:hookCleanup" assert [deferredrightafterstart] started && !cleanupdeferred
+//@   at call "defer:local:hookCleanup" mark cleanupdeferred
 //@   at call (*HttpServer).startDispatchHook assert [startonce] !started
 //@   at call (*HttpServer).startDispatchHook mark started
 //@   at call "local:hookCleanup" assert [cleanuponce] started && !cleaned
@@ -123,6 +142,9 @@ package vgirpc
 //@   property C37
 //@   pathflag started
 //@   pathflag cleaned
+//@   pathflag cleanupdeferred
+//@   at call "defer:local:hookCleanup" assert [deferredrightafterstart] started && !cleanupdeferred
+//@   at call "defer:local:hookCleanup" mark cleanupdeferred
 //@   at call (*HttpServer).startDispatchHook assert [startonce] !started
 //@   at call (*HttpServer).startDispatchHook mark started
 //@   at call "local:hookCleanup" assert [cleanuponce] started && !cleaned
